@@ -468,7 +468,9 @@ def _is_set_of(e, name, cfg, at):
     return False
 
 
-def r4_result(ctx, chk, rule="C07.4"):
+def r4_result(ctx, chk, rule="C07.4", order_matters=True):
+    """order_matters=False when used as a prerequisite of the value iteration: the limit of the sweep does not depend
+    on the order of its domain, only C07 itself promises an ascending result."""
     s = _search(ctx)
     f = s.f
     cfg = ctx.cfg(f)
@@ -506,6 +508,8 @@ def r4_result(ctx, chk, rule="C07.4"):
         sorts = [m for m in muts if m.value.func.attr == "sort" and not m.value.args
                  and not any(k.arg in ("reverse", "key") for k in m.value.keywords)]
         rev_sorts = [m for m in muts if m.value.func.attr == "sort" and m not in sorts]
+        if not order_matters:
+            sorts, rev_sorts = sorts + rev_sorts, []
         for m in rev_sorts:
             chk.violation(rule, f.where(m), "`%s` does not sort ascending by value" % norm_stmt(m), expected="%s.sort()" % R,
                           found=norm_stmt(m), construct="reverse_dfs result not ascending")
@@ -515,6 +519,8 @@ def r4_result(ctx, chk, rule="C07.4"):
                     and not any(o is not m and o not in sorts and cfg.path_exists(m, o) and cfg.path_exists(o, ret) for o in muts)]
             if good:
                 sorted_by = "`%s` dominates the return and is the last structural operation on `%s`" % (norm_stmt(good[0]), R)
+        if sorted_by is None and not order_matters:
+            sorted_by = "(order not required by this property)"
         if sorted_by is None:
             chk.violation(rule, f.where(ret), "the returned list `%s` is not sorted on every path to the return" % R,
                           expected="last structural operation before `return %s` is %s.sort()" % (R, R),
@@ -523,7 +529,7 @@ def r4_result(ctx, chk, rule="C07.4"):
     else:
         chk.undecided(rule, f.where(ret), "return value `%s` not recognised" % src(val))
         return
-    chk.ok(rule, f.where(ret), "result is sorted ascending: %s" % sorted_by)
+    chk.ok(rule, f.where(ret), "result is sorted ascending: %s" % sorted_by if order_matters else "result order: %s" % sorted_by)
     # filter form
     if isinstance(compr, (ast.ListComp, ast.GeneratorExp, ast.SetComp)) and len(compr.generators) == 1:
         gen = compr.generators[0]
@@ -699,6 +705,11 @@ def _grouping_and_pairs(ctx, chk, rule, sx, base_dict, tl, f, fn_of, where):
                 chk.violation(rule, gwhere, "grouping appends `%s` under condition `%s`; specification: table[pair[0]].append(pair[1]) for every pair (multiplicity kept)" % (show(a0[2])[:120], show(a0[0])),
                               expected="unconditional table[t].append(s) per pair (t, s)", found=show(a0[2])[:140] + " if " + show(a0[0]), construct="grouping append")
                 return
+        up = Lg.update.get(gv) if base_dict[0] == "res" else None
+        if not appends and up is not None and up[0] == "setitem" and up[1] == gacc and up[3][0] == "list":
+            chk.violation(rule, gwhere, "the grouping loop overwrites the entry (`table[%s] = %s`) for every pair: only the last predecessor of a state is kept" % (show(up[2]), show(up[3])),
+                          expected="table[t].append(s) per pair (t, s)", found=show(up)[:140], construct="grouping overwrite")
+            return
         chk.undecided(rule, gwhere, "grouping loop not in a recognised form (`if k not in d: d[k] = []; d[k].append(v)` or `d.setdefault(k, []).append(v)`)")
         return
     chk.ok(rule, gwhere, "grouping: every pair (t, s) appends s under key t, unconditionally (multiplicity kept)")
